@@ -41,7 +41,7 @@ type pgpRegion struct {
 type pgpAlt struct {
 	flags   int
 	created uint32
-	life    int64 // -1: no key-expiration subpacket
+	life    int64 // -1: no key-expiration pgpw_subpacket
 }
 
 type pgpIDRef struct {
@@ -392,8 +392,8 @@ func genC12(c *Ctx) {
 	// ---- corpus: witnesses of the defects found with this check (all repaired) ----
 	// F7: EdDSA key whose point MPI has bit length 0 (slice bounds panic in newEdDSA)
 	{
-		k := &pkey{algo: 22, created: 0x5f000000, bits: -1, oid: oidEd25519}
-		k.mat = cat(oidField(oidEd25519), []byte{0, 0})
+		k := &pkey{algo: 22, created: 0x5f000000, bits: -1, oid: pgpw_oidEd25519}
+		k.mat = cat(oidField(pgpw_oidEd25519), []byte{0, 0})
 		pgpInspect(c, "C12", "corpus-F7-empty-point", false, pgpPacket(6, k.body(), 0), SL{I(0)}, plain)
 		// cv25519 subkey with an empty point behind a valid EdDSA primary
 		r := NewRng(7)
@@ -407,7 +407,7 @@ func genC12(c *Ctx) {
 		// short EdDSA point: ed25519.Verify panicked on a key that is not 32 octets
 		r = NewRng(8)
 		short := newEdDSAKey(1600000000, r)
-		short.mat = cat(oidField(oidEd25519), mpiOf(cat([]byte{0x40}, r.Bytes(20))))
+		short.mat = cat(oidField(pgpw_oidEd25519), mpiOf(cat([]byte{0x40}, r.Bytes(20))))
 		b = newEnt(short, false, r, func() int { return 0 })
 		id = b.uid("short point")
 		b.cert(id, nil, selfSigOpts(short, 8, 1600000000, 3, nil), false)
@@ -577,7 +577,7 @@ func genC12(c *Ctx) {
 			if n > 0 {
 				pt[0] = 0x40
 			}
-			keyhash("eddsa-point-"+strconv.Itoa(n), cat([]byte{4, 0, 0, 0, 1, 22}, oidField(oidEd25519), u16(8*n), pt), false)
+			keyhash("eddsa-point-"+strconv.Itoa(n), cat([]byte{4, 0, 0, 0, 1, 22}, oidField(pgpw_oidEd25519), u16(8*n), pt), false)
 			keyhash("cv25519-point-"+strconv.Itoa(n), cat([]byte{4, 0, 0, 0, 1, 18}, oidField(oidCv25519), u16(8*n), pt, kdfSHA256AES128), false)
 		}
 	}
@@ -586,12 +586,12 @@ func genC12(c *Ctx) {
 	//      creation times over the 32-bit range, lifetimes absent / 0 / n ----
 	sigattrs := func(tag string, flags []byte, created uint32, life *uint32, keyCreated uint32, extra [][]byte) {
 		var hashed []byte
-		hashed = append(hashed, subpacket(2, u32(created), false)...)
+		hashed = append(hashed, pgpw_subpacket(2, u32(created), false)...)
 		if flags != nil {
-			hashed = append(hashed, subpacket(27, flags, false)...)
+			hashed = append(hashed, pgpw_subpacket(27, flags, false)...)
 		}
 		if life != nil {
-			hashed = append(hashed, subpacket(9, u32(*life), false)...)
+			hashed = append(hashed, pgpw_subpacket(9, u32(*life), false)...)
 		}
 		for _, e := range extra {
 			hashed = append(hashed, e...)
@@ -646,9 +646,9 @@ func genC12(c *Ctx) {
 		sigattrs("dates-random", []byte{byte(c.R.U64())}, uint32(c.R.U64()), pickLife(c.R), uint32(c.R.U64()), nil)
 	}
 	// repeated subpackets: the last key-expiration wins, key flags accumulate
-	sigattrs("two-lifetimes", []byte{1}, 1000, u32p(5), 2000, [][]byte{subpacket(9, u32(86400*365), false)})
-	sigattrs("two-flag-subpackets", []byte{1}, 1000, nil, 2000, [][]byte{subpacket(27, []byte{0x20}, false)})
-	sigattrs("critical-flags", nil, 1000, nil, 2000, [][]byte{subpacket(27|0x80, []byte{0x0c}, false)})
+	sigattrs("two-lifetimes", []byte{1}, 1000, u32p(5), 2000, [][]byte{pgpw_subpacket(9, u32(86400*365), false)})
+	sigattrs("two-flag-subpackets", []byte{1}, 1000, nil, 2000, [][]byte{pgpw_subpacket(27, []byte{0x20}, false)})
+	sigattrs("critical-flags", nil, 1000, nil, 2000, [][]byte{pgpw_subpacket(27|0x80, []byte{0x0c}, false)})
 
 	// ---- describe: file.Inspect on complete armored keys ----
 	pa := primaryAlgos()
@@ -1057,7 +1057,7 @@ func gpgRef(list string) Sx {
 	algoOID := func(curve string) []byte {
 		switch curve {
 		case "ed25519":
-			return oidEd25519
+			return pgpw_oidEd25519
 		case "cv25519":
 			return oidCv25519
 		case "nistp256":
@@ -1386,7 +1386,7 @@ func c11Structural(c *Ctx) {
 		o.badTag = true
 		b.cert(id, nil, o, false)
 		emit("self-signature-bad-hash-prefix", b, []string{"bad tag"}, nil)
-		// self-signature without an issuer subpacket, with a foreign issuer, of a non-certification type
+		// self-signature without an issuer pgpw_subpacket, with a foreign issuer, of a non-certification type
 		b, _ = base()
 		id = b.uid("no issuer")
 		o = selfSigOpts(b.primary, 8, 1600000000, 3, nil)
@@ -1476,7 +1476,7 @@ func c11Structural(c *Ctx) {
 		r := NewRng(c.R.U64())
 		p := newEdDSAKey(1600000000, r)
 		b := newEnt(p, false, r, func() int { return 0 })
-		body, _ := makeSig(p, p.hashInput(), sigOpts{sigType: 0x20, hid: 8, created: 1600000001, issuer: u64p(p.keyID()), extraHashed: [][]byte{subpacket(29, []byte{0, 'x'}, false)}}, r)
+		body, _ := makeSig(p, p.hashInput(), sigOpts{sigType: 0x20, hid: 8, created: 1600000001, issuer: u64p(p.keyID()), extraHashed: [][]byte{pgpw_subpacket(29, []byte{0, 'x'}, false)}}, r)
 		b.packet(2, body)
 		id := b.uid("revoked key <r@example.org>")
 		b.cert(id, nil, selfSigOpts(p, 8, 1600000000, 3, nil), true)
